@@ -488,3 +488,12 @@ K('C04', 'lipschitz-memo-by-projection', [(INF, "        eigs = { cl : 0.0 for c
 T('C04', 'setup-whitens-once', [(INF, "            m = (Q, y, noise, proj)\n", "            Q = Q * (1.0/noise)\n            y = y * (1.0/noise)\n            m = (Q, y, 1.0, proj)\n")])
 K('C04', 'setup-whitens-twice', [(INF, "            m = (Q, y, noise, proj)\n", "            Q = Q * (1.0/noise)\n            y = y * (1.0/noise)\n            m = (Q, y, noise, proj)\n")], 'exactly-once')
 K('C04', 'setup-whitens-answers-only', [(INF, "            m = (Q, y, noise, proj)\n", "            y = y * (1.0/noise)\n            m = (Q, y, 1.0, proj)\n")], 'exactly-once')
+
+# ---- C10 near-miss round: zero-clique coverage filter, division guard
+FACT = 'src/mbi/factor.py'
+_ZC_OLD = "            cliques += list(self.structural_zeros.keys())\n"
+T('C10', 'zero-cliques-skip-contained', [(INF, _ZC_OLD, "            measured = [set(cl) for cl in cliques]\n            for cl in self.structural_zeros:\n                if not any(set(cl) <= m for m in measured):\n                    cliques.append(cl)\n")])
+K('C10', 'zero-cliques-skip-attributewise', [(INF, _ZC_OLD, "            measured = set().union(*cliques)\n            for cl in self.structural_zeros:\n                if not set(cl) <= measured:\n                    cliques.append(cl)\n")], 'zero-cliques')
+T('C10', 'division-cleared-by-denominator', [(FACT, "        vals = np.divide(self.values, tmp.values, where=tmp.values>0)\n        vals[tmp.values<=0] = 0.0", "        with np.errstate(divide='ignore', invalid='ignore'):\n            vals = self.values / tmp.values\n        vals[tmp.values<=0] = 0.0")])
+K('C10', 'division-cleared-by-isinf', [(FACT, "        vals = np.divide(self.values, tmp.values, where=tmp.values>0)\n        vals[tmp.values<=0] = 0.0", "        with np.errstate(divide='ignore', invalid='ignore'):\n            vals = self.values / tmp.values\n        vals[np.isinf(vals)] = 0.0")], 'division-guard')
+K('C10', 'division-not-cleared', [(FACT, "        vals[tmp.values<=0] = 0.0\n", "")], 'division-guard')
